@@ -1311,11 +1311,19 @@ class Clip(Elemwise):
             return plain_column_projection(self, parent, dependents)
 
 
+def _to_string_dtype(df):
+    # ``to_pyarrow_string`` assigns the converted index to the object it was
+    # given whenever no column needs converting; never hand it the input itself
+    if is_dataframe_like(df) or is_series_like(df):
+        df = df.copy(deep=False)
+    return to_pyarrow_string(df)
+
+
 class ArrowStringConversion(Elemwise):
     _projection_passthrough = True
     _filter_passthrough = True
     _parameters = ["frame"]
-    operation = staticmethod(to_pyarrow_string)
+    operation = staticmethod(_to_string_dtype)
 
 
 class Between(Elemwise):
